@@ -90,6 +90,15 @@ def handle (j : Json) : Except String Json := do
       | some p => Json.mkObj [("files", SL p.files), ("output", optS p.output), ("recursive", p.recursive), ("prefix", optS p.pfx),
           ("settings", optS p.settings), ("excludes", SL p.excludes)]
     pure (Json.mkObj [("argv", SL argv), ("parsed", pj (parseArgv argv {}))])
+  | "mainargs" =>
+    -- an argument vector of `cminx.main`: does the model decide it, what the parser extracts, and the command-line source
+    let argv ← getStrList j "argv"
+    let sup := argvSupported argv
+    let parsed : Json := match parseArgv argv {} with
+      | none => Json.null
+      | some p => Json.mkObj [("files", SL p.files), ("settings", optS p.settings),
+          ("cli", Json.mkObj ((cliSource p).map (fun (k, v) => (String.ofList k, cvalJson v))))]
+    pure (Json.mkObj [("supported", sup), ("parsed", parsed)])
   | "procs" =>
     -- the names for which the model has a `process_<name>` method, and which of them have an include_undocumented_ flag
     let names := ["function", "macro", "cmake_parse_arguments", "ct_add_test", "ct_add_section", "set", "cpp_class", "cpp_member",
